@@ -78,6 +78,7 @@ long f_ints(char c, short s, int i, long l, long long ll, unsigned long ul, size
 double f_fp(float f, double d);
 Color f_enum(Color c, bool b);
 char* f_ptrs(char* p, int* q, void* v);
+long f_plong(long* p, char** pp, unsigned long* up); // pointees whose alignment in the guest (4) is smaller than the application's (8)
 int f_fn(long (*cb)(long, unsigned), void (*gf)(void));
 long f_struct(SimPair pr);
 long f_struct3(SimPair3 pr);
@@ -137,12 +138,13 @@ enum FnId
   FN_STRUCT3,
   FN_CALLS,
   FN_CALLE,
+  FN_PLONG,
   FN_LONG1,
   FN_LONG2,
   FN_COUNT
 };
 static const char* kFnName[] = { "f_ints", "f_fp", "f_enum", "f_ptrs", "f_fn", "f_struct", "f_ret_struct", "f_void", "f_many", "f_u",
-                                 "f_rs", "f_ruc", "f_rll", "f_rb", "f_rf", "f_fnret", "f_callc", "f_struct3", "f_callS", "f_callE",
+                                 "f_rs", "f_ruc", "f_rll", "f_rb", "f_rf", "f_fnret", "f_callc", "f_struct3", "f_callS", "f_callE", "f_plong",
                                  "f_image_decoder_pipeline_process_header_block", "f_image_decoder_pipeline_process_pixels_block" };
 
 struct GuestRec
@@ -199,6 +201,11 @@ struct G
   {
     grec(FN_PTRS, LIB, { p, q, v });
     return (uint32_t)g_result_bits;
+  }
+  static int32_t plong(uint32_t p, uint32_t pp, uint32_t up)
+  {
+    grec(FN_PLONG, LIB, { p, pp, up });
+    return (int32_t)g_result_bits;
   }
   static int32_t fn(uint32_t cb, uint32_t gf)
   {
@@ -343,6 +350,7 @@ static std::vector<Sym> make_lib()
                          { "f_rf", (void*)&G<LIB>::rf },         { "f_fnret", (void*)&G<LIB>::fnret },
                          { "f_callc", (void*)&G<LIB>::callc },   { "f_struct3", (void*)&G<LIB>::st3 },
                          { "f_callS", (void*)&G<LIB>::callS },   { "f_callE", (void*)&G<LIB>::callE },
+                         { "f_plong", (void*)&G<LIB>::plong },
                          { "f_image_decoder_pipeline_process_header_block", (void*)&G<LIB>::long1 },
                          { "f_image_decoder_pipeline_process_pixels_block", (void*)&G<LIB>::long2 } };
   if (LIB == 1)
@@ -827,6 +835,26 @@ struct InvokeWorld : World
     uintptr_t base = (uintptr_t)m.sb->get_sandbox_impl()->mem.base;
     size_t size = m.sb->get_sandbox_impl()->mem.size;
     int form = (int)((uint64_t)op.a[1] % 8);
+    if (form == 5) {
+      // pointers to long / to pointers at every position that is aligned for the GUEST (4 bytes): odd positions are
+      // not aligned for the application's 8-byte types, and need not be
+      unsigned k0 = (unsigned)((uint64_t)op.a[2] % 4), k1 = (unsigned)(((uint64_t)op.a[2] / 4) % 4), k2 = (unsigned)(((uint64_t)op.a[2] / 16) % 4);
+      auto lp = rlbox::sandbox_reinterpret_cast<long*>(m.ibuf + k0);
+      auto pp = rlbox::sandbox_reinterpret_cast<char**>(m.ibuf + k1);
+      auto up = rlbox::sandbox_reinterpret_cast<unsigned long*>(m.ibuf + k2);
+      Expect e5;
+      uint32_t r0 = (uint32_t)((uintptr_t)m.ibuf.UNSAFE_unverified() - base);
+      e5.args = { r0 + 4 * k0, r0 + 4 * k1, r0 + 4 * k2 };
+      g_result_bits = (uint64_t)(uint32_t)op.a[3] & 0x7fffffffu;
+      size_t before5 = g_glog.size();
+      long got5 = 0;
+      Outcome o5 = attempt([&] { got5 = m.sb->invoke_sandbox_function(f_plong, lp, pp, up).UNSAFE_unverified(); });
+      C->ev("ptrs to 8-byte types at guest-aligned positions %u %u %u -> %s", k0, k1, k2, oname(o5));
+      C->probe("pointer_argument_aligned_for_the_guest_only");
+      if (judge(m, FN_PLONG, o5, before5, e5, "ptrs") && got5 != (long)(int32_t)g_result_bits)
+        C->violate("C11", "wrong_result@ptrs", "result");
+      return;
+    }
     if (form > 4)
       form %= 4;
     TT<char*> p = m.buf + (int)((uint64_t)op.a[2] % 32);
@@ -1668,6 +1696,17 @@ struct InvokeWorld : World
             if (id2 != id)
               id = 1000 + id2;
           });
+          if (o == OK && (op.a[1] & 3) == 1) {
+            // names that the process knows (the C++ runtime the application links, the application's own functions) but
+            // that the sandbox's library does not export are not functions of the sandbox
+            static const char* const kForeign[] = { "__cxa_demangle", "_ZSt9terminatev", "f_not_in_any_guest_library" };
+            const char* nm = kForeign[((uint64_t)op.a[1] >> 2) % 3];
+            void* addr = nullptr;
+            Outcome lo = attempt([&] { addr = d.sb->lookup_symbol(nm); });
+            c.probe("dylib_lookup_of_name_known_to_the_process_only");
+            if (lo == OK && addr != nullptr)
+              c.violate("C11", "function_outside_the_sandbox_library_resolved@dylib_invoke", "instance bound to libguest%d resolved %s, which that library does not export", d.lib, nm);
+          }
           if (o != OK || id != d.lib || got != a + b + cc + 1000 * d.lib)
             c.violate("C11",
                       id != d.lib ? "wrong_library@dylib_invoke" : "wrong_result@dylib_invoke",
